@@ -38,7 +38,7 @@ def Mutation.target : Mutation → Option Observable
 theorem callTrait_delivered (E : Env) (h : Heap) (o : Id) (n : Name) (old new : Val) :
     ∀ (ns : List Notifier) (H : Hooks) (ds : List Delivered),
       ∀ d ∈ (callTrait E h o n old new ns H ds).2.1,
-        d ∈ ds ∨ ∃ k rc, Notifier.user k rc ∈ ns ∧ E.dead k = false ∧ preventTrait h n old new = false ∧
+        d ∈ ds ∨ ∃ k rc, Notifier.user k rc ∈ ns ∧ E.dead k = false ∧ preventTrait E h o n old new = false ∧
           d = .trait k o n old new := by
   intro ns
   induction ns with
@@ -48,7 +48,7 @@ theorem callTrait_delivered (E : Env) (h : Heap) (o : Id) (n : Name) (old new : 
     cases nt with
     | user k rc =>
       simp only [callTrait] at hd
-      by_cases hc : (E.dead k || preventTrait h n old new) = true
+      by_cases hc : (E.dead k || preventTrait E h o n old new) = true
       · simp only [hc, if_true] at hd
         rcases ih H ds d hd with h1 | ⟨k', rc', hm, r⟩
         · exact Or.inl h1
@@ -245,25 +245,37 @@ theorem mutate_delivered (E : Env) (st : St) (m : Mutation) :
     · exact ⟨by rw [(runCont_delivered E st _ c _ d hd).1]; rfl, (runCont_delivered E st _ c _ d hd).2⟩
     · simp [skip] at hd
 
-/-- A trait assignment delivers only `(o, n, old ↦ v)` events with `old ≠ v`, from
-user notifiers hooked on `o.n`. -/
+/-- A trait assignment delivers only `(o, n, old ↦ v)` events from user notifiers hooked
+on `o.n`; `old` is a different value unless the trait's comparison mode is `none`. -/
 theorem setField_delivered (E : Env) (st : St) (o : Id) (n : Name) (v : Val) (fresh : Id) :
     ∀ d ∈ (mutate E st (.setField o n v fresh)).delivered,
-      ∃ k old rc, d = .trait k o n old v ∧ old ≠ v ∧ Notifier.user k rc ∈ st.H.get (.trait o n) := by
+      ∃ k old rc, d = .trait k o n old v ∧ (old = v → fieldCmp st.h o n = .none) ∧
+        Notifier.user k rc ∈ st.H.get (.trait o n) := by
   intro d hd
   simp only [mutate] at hd
-  split at hd
-  · split at hd
-    · simp [skip] at hd
-    · split at hd
+  cases ho : st.h.get o with
+  | inst fs =>
+    simp only [ho] at hd
+    cases hf : findField fs n with
+    | none => simp [hf, skip] at hd
+    | some f =>
+      simp only [hf] at hd
+      split at hd
       · simp at hd
       · split at hd
         · simp at hd
         · rename_i hne
           rcases callTrait_delivered E _ o n _ v _ st.H [] d hd with h1 | ⟨k, rc, hm, _, _, rfl⟩
           · cases h1
-          · exact ⟨k, _, rc, rfl, by simpa using hne, hm⟩
-  · simp [skip] at hd
+          · refine ⟨k, _, rc, rfl, ?_, hm⟩
+            intro he
+            simp only [fieldCmp, ho, hf]
+            simp only [Bool.and_eq_true, bne_iff_ne, ne_eq, beq_iff_eq, not_and] at hne
+            exact Classical.byContradiction (fun hc => hne hc he)
+  | list l => simp [ho, skip] at hd
+  | dict l => simp [ho, skip] at hd
+  | set l => simp [ho, skip] at hd
+  | junk => simp [ho, skip] at hd
 
 /-! ### dead weak references -/
 
